@@ -65,7 +65,7 @@ def run(ctx):
     ctx.cov.update(dict(
         states=mc["states"], transitions=mc["transitions"], traces_validated_against_impl=s["vectors"],
         samples=(s.get("samples") or [])[:3], model_cfg=cfg, vectors_emitted=mc["emitted"], vectors_replayed=s["vectors"],
-        per_family=s["families"], antecedent_hits=s["hits"], events=nlines, drift=0,
+        per_family=s["families"], antecedent_hits=s["hits"], branch_hits=s.get("branches", {}), events=nlines, drift=0,
         monitor_formulas=MON_FORMULAS, exhaustive=(s["vectors"] == len(scs)),
         model_invariants=["RefPipeline", "RefSelf", "RefBounds", "RefRouting"],
         checker_cmd="tlc MCPipeline (M,G: input vectors) -> harness/drivers/pipeline on /repo (T) -> tlc MonPipeline",
